@@ -115,6 +115,10 @@ func c09Gen(r *Rand, tier string) interface{} {
 				op = c09Op{Kind: "MkdirAll", Path: c09Dirs[r.Intn(len(c09Dirs))]}
 			case 8:
 				op = c09Op{Kind: "Copy", Path: c09Files[r.Intn(len(c09Files))], To: fmt.Sprintf("copy%d", r.Intn(2))}
+				if r.Chance(1, 3) {
+					// a whole directory, while others write into and remove below it
+					op = c09Op{Kind: "Copy", Path: c09Dirs[r.Intn(3)], To: fmt.Sprintf("copydir%d", r.Intn(2))}
+				}
 			case 9:
 				op = c09Op{Kind: []string{"Remove", "RemoveAll"}[r.Intn(2)], Path: append(append([]string{}, c09Files...), c09Dirs...)[r.Intn(len(c09Files)+len(c09Dirs))]}
 			case 10:
